@@ -139,7 +139,7 @@ def sc_pool_after_warmup():
     class FreshB: pass
     return (lambda: is_bearable([FreshA()], typing.List[FreshA])), (lambda: is_bearable([1], typing.Dict[str, typing.List[FreshB]])), lambda: ''
 
-def sc_import_hooked_and_unhooked():
+def sc_import_hooked_and_unhooked(files_only=False):
     """one thread imports a module of a HOOKED package, the other a module of an unhooked one (both for the first time, bytecode caching on):
     the joint observation is which cache files the unhooked module got"""
     import tempfile
@@ -174,10 +174,13 @@ def sc_import_hooked_and_unhooked():
             names = sorted(os.listdir(pc)) if os.path.isdir(pc) else []
             out.append(pkg + ': ' + ', '.join(('MARKED ' if 'beartype' in n else 'plain ') + n.split('.')[0] for n in names if n.startswith('mod')))
         return '; '.join(out)
-    return a, b, joint
+    if files_only: return (lambda: (a(), 'done')[1]), (lambda: (b(), 'done')[1]), joint      # only WHICH cache files exist is observed (known finding)
+    return a, b, lambda: ''                                                                    # only the verdicts (checked / unchecked) are observed
+
+def sc_import_cache_files(): return sc_import_hooked_and_unhooked(True)
 
 SCENARIOS = {f.__name__[3:]: f for f in (sc_conf_repr, sc_conf_new, sc_conf_violation_message, sc_typehint_same, sc_is_bearable_same_hint, sc_is_bearable_two_hints,
-                                         sc_decorate_two, sc_decorate_class_and_check, sc_is_subhint, sc_hook_registrations, sc_pool_after_warmup, sc_import_hooked_and_unhooked)}
+                                         sc_decorate_two, sc_decorate_class_and_check, sc_is_subhint, sc_hook_registrations, sc_pool_after_warmup, sc_import_hooked_and_unhooked, sc_import_cache_files)}
 
 # ---------------------------------------------------------------- the scheduler (runs in a forked child)
 
@@ -193,6 +196,9 @@ def _run_schedule(opA, opB, joint, k, pkgdir):
     def local(frame, event, arg):
         if event == 'line':
             state['n'] += 1
+            if k is None:
+                key = f'{frame.f_code.co_filename}:{frame.f_lineno}'
+                ent = state.setdefault('first', {}).setdefault(key, [state['n'], 0]); ent[1] += 1
             if state['n'] == k:
                 paused.set(); resume.wait(T_HANG * 2)
         return local
@@ -207,7 +213,7 @@ def _run_schedule(opA, opB, joint, k, pkgdir):
     ta = threading.Thread(target=runA, daemon=True); tb = threading.Thread(target=runB, daemon=True)
     ta.start(); paused.wait(T_HANG)
     if k is None:
-        ta.join(T_HANG); return {'lines': state['n']}
+        ta.join(T_HANG); return {'lines': state['n'], 'first_of_line': state.get('first', {})}
     tb.start(); tb.join(T_BLOCK)
     res['b_blocked_until_a_resumed'] = tb.is_alive()
     resume.set(); ta.join(T_HANG); tb.join(T_HANG)
@@ -269,11 +275,15 @@ def explore(scn, repo, budget, seed):
     fails, trials, lines = [], 0, {}
     rnd = random.Random(f'{seed}:{scn}')
     for swap in (False, True):
-        n = _child(scn, swap, None, repo).get('lines', 0); lines[swap] = n
+        cnt = _child(scn, swap, None, repo); n = cnt.get('lines', 0); lines[swap] = n
         if n <= budget: ks = list(range(1, n + 1))
         else:
-            step = n / (budget * 0.6)
-            ks = sorted(set([1 + int(i * step) for i in range(int(budget * 0.6))] + [rnd.randint(1, n) for _ in range(int(budget * 0.4))]))
+            # one preemption point per DISTINCT source line (its first execution), rarest lines first (set-up code that runs once - the narrow windows -
+            # before loop bodies); the rest of the budget evenly spread + seeded random over all line events
+            firsts = sorted(cnt.get('first_of_line', {}).values(), key=lambda e: (e[1], e[0]))
+            ks = [e[0] for e in firsts[:int(budget * 0.7)]]
+            rest = budget - len(ks); step = n / max(1, rest // 2)
+            ks = sorted(set(ks + [1 + int(i * step) for i in range(rest // 2)] + [rnd.randint(1, n) for _ in range(rest - rest // 2)]))
         for k in ks:
             o = _child(scn, swap, k, repo); trials += 1
             if 'harness_error' in o: return dict(error=o['harness_error'])
